@@ -64,7 +64,7 @@ PROPS['C07'] = dict(
     level_note='assumes the ihex crate renders records correctly, std slice/Vec contracts, rewrite R5 (chunks/enumerate as index loop); '
                'the std File operations behind write_*_hex are assumed (truncate-or-create, append), the CRLF conversion is uninterpreted: '
                'bounded witnesses write over a longer / empty / truncated / identical file at the same path: the result must be the new file alone',
-    technique='Verus loop invariant + postcondition against a spec-level Intel HEX reader, on the extracted function',
+    technique='Verus loop invariant + postcondition against a spec-level Intel HEX reader on the extracted generator; Verus contract on the extracted write_code_hex / write_eeprom_hex over an explicit file-system parameter',
     verus=['hex'],
     witnesses=witnesses_c07,
     functions=['writer::generate_hex_from_segment (src/writer.rs) -- extracted verbatim, rules R5 R1', 'writer::generate_hex -- verbatim',
